@@ -29,6 +29,7 @@ fn esc(s: &str) -> String {
 
 fn run<S: shared::src_trait::Src>(harness: &str, src: &mut S) -> Outcome {
     match harness {
+        "c02_upgraded_entry" => r_c01::upgraded_entry(src),
         h if h.starts_with("c02_cut") => r_c01::two_chunks(h[7..].parse().unwrap_or(0), src),
         h if h.starts_with("c01_") || h.starts_with("c06_") || h.starts_with("c03_split") => r_c01::instance(h, src),
         h if h.starts_with("c03_") => r_c03::run(h, src),
